@@ -1231,6 +1231,10 @@ class NpModule:
             return False
         if v is None:
             raise PyRaise(PyExc(TypeError, ("isnan(None)",)))
+        from .objects import ClassInfo
+        if isinstance(v, (str, ClassInfo)):
+            # numpy: "ufunc 'isnan' not supported for the input types" for strings and arbitrary objects such as classes
+            raise PyRaise(PyExc(TypeError, ("ufunc 'isnan' not supported for the input types",)))
         raise Unsupported("np.isnan")
 
     def _logical(self, a, b, f, out=None, **k):
